@@ -64,6 +64,9 @@ func RefTipSums(s *Snap, addr string) []TipSum {
 
 // CheckBalances is the C06 oracle on node n for the given addresses.
 func (w *World) CheckBalances(n *Node, addrs []string) {
+	if n.Abandoned {
+		return
+	}
 	before, err := TakeSnap(n.Book)
 	if err != nil {
 		w.Res.Inconc("snapshot failed: " + err.Error())
@@ -271,6 +274,9 @@ func (w *World) CheckAgreement(addrs []string) {
 // have been merged, so any overdrawn wallet is a violation in its own right ("on a ledger that grows as a single
 // chain of tips this is exactly: no wallet ever spends more than it holds").
 func (w *World) CheckConservation(n *Node) {
+	if n.Abandoned {
+		return
+	}
 	if len(w.Trusted) > 0 {
 		w.Res.Count("c02_skipped_trusted_sealing", 1)
 		return
@@ -442,7 +448,7 @@ func isChain(s *Snap) bool {
 // make the node judge that tip. The probe must never become confirmed: the snapshot oracle of C01 and the conservation
 // oracle of C02 watch. Every second wallet afterwards spends exactly what it owns, which must be confirmed.
 func (w *World) OverspendProbes(n *Node, d *Driver) {
-	if len(w.Trusted) > 0 {
+	if len(w.Trusted) > 0 || n.Abandoned {
 		return
 	}
 	for ui, u := range w.Users {
